@@ -38,3 +38,17 @@ func c03FixtureRule(fp *Prog, fr *Report) {
 		e.settle("fixture", name, fp.Pos(fn.Pos()), v, "ok", "fixture")
 	}
 }
+
+// c03KWFixtureRule runs the counter-encoding bit-flow rule on fixtures/c03kw.
+func c03KWFixtureRule(fp *Prog, fr *Report) {
+	fr.Rule("fixture", "counter encoding bit flow", 0)
+	for _, fn := range fp.Funcs {
+		if fn.Parent() != nil {
+			continue
+		}
+		low := strings.ToLower(fn.Name())
+		if strings.HasPrefix(low, "good") || strings.HasPrefix(low, "bad") {
+			c03CheckCounterEncoding(fp, fr, "fixture", FuncName(fp, fn), fn, 32)
+		}
+	}
+}
